@@ -154,6 +154,10 @@ fn run_set<S: PS>(ctx: &Ctx) -> Acc {
         }
         check_sig_codec::<S>(&mut acc, "random-z-empty-hint", &s);
 
+        // hint sections ascending through index and count area (counts above omega)
+        for y in gen::ascending_hint_sections(&mut g, p) {
+            check_hint_codec::<S>(&mut acc, "ascending-whole-section", &y);
+        }
         // (iii) structure-aware hint sections
         for t in 0..n_hint / n_jobs.max(1) + 1 {
             let w = match t % 5 {
